@@ -156,6 +156,8 @@ impl LayerGen {
     pub fn generate(&self, current_max_layer: u8) -> u8 {
         let mut r = rng();
         let val = r.sample(self.uniform).max(f64::MIN_POSITIVE);
+        #[cfg(feature = "verif")]
+        let val = anda_db_utils::verif::next_random_unit_f64().unwrap_or(val);
 
         // Sample l = ⌊−ln(u) · scale⌋ from an exponential distribution.
         let level = (-val.ln() * self.scale).floor() as u8;
